@@ -130,6 +130,9 @@ def tfunLayout (cfg : Cfg) (es : InEdges) (comps : List (List (Int × G))) (real
         let thor : Nat := if cfg.thor < 0 then 28 else cfg.thor.toNat
         let m := (execNsPositioner thor 4 cfg.ns a).map (assignYCoords cfg.ls)
         out := out ++ [cmpG "T:phase4-ns" m b]
+      else if cfg.p4 == 4 && a.nodes.size > 1 then
+        let m := (BK.execBrandesKoepf cfg.bk cfg.ns a).map (assignYCoords cfg.ls)
+        out := out ++ [cmpG "T:phase4-bk" m b]
       else if cfg.p4 == 0 && a.nodes.size > 1 then
         let m := (execSinkColoring cfg.ns a).map fun (g, _) => assignYCoords cfg.ls g
         out := out ++ [cmpG "T:phase4-sinkcoloring" m b]
@@ -148,7 +151,7 @@ def tfunLayout (cfg : Cfg) (es : InEdges) (comps : List (List (Int × G))) (real
     | some a, some b => out := out ++ [cmpG "T:post" (pure (postProcess a (loopsOf.getD ci []))) b]
     | _, _ => pure ()
   -- the composed model, from the raw input to the public result (small inputs, configurations with exact models)
-  if heavy && cfg.p1 ≤ 1 && cfg.p4 ≤ 3 && cfg.p5 != 3 && es.length ≤ 16 then
+  if heavy && cfg.p1 ≤ 1 && cfg.p4 ≤ 4 && cfg.p5 != 3 && es.length ≤ 16 then
     match layoutModel (fun g => (orderWMedian 24 g).map (·.1)) cfg es with
     | .error e => out := out ++ [("T:pipeline", false, s!"model error {e}")]
     | .ok m => out := out ++ [("T:pipeline", m == real, firstDiffOut m real)]
